@@ -14,7 +14,7 @@ for extra in sys.argv[3:]:
 res = Result("TRY", "quick", 0)
 t0 = time.time()
 run_contracts(res, cs, allc)
-discharge([o for o in res.obligations if o.verdict is None], tier="quick", seed=0)
+discharge([o for o in res.obligations if o.verdict is None], tier=os.environ.get("VERIF_TIER", "quick"), seed=int(os.environ.get("VERIF_SEED", "0")))
 for n, obs in group(res.obligations).items():
     v = {o.verdict for o in obs}
     print(("OK   " if v == {"discharged"} else "!!   ") + n, sorted(v), obs[0].kind, sum(o.ms or 0 for o in obs), "ms")
